@@ -17,7 +17,8 @@ func init() {
 		Title: "Schemas and process-wide state are safe to share between goroutines",
 		Explanation: "A data race needs a write. R14a: the closure of types reachable from the Schema implementation's fields (through fields, elements, repo interfaces' implementers and the concrete types flowing into interface{} fields such as the format runtime) is computed; no SSA store / map update whose address chain passes through a field of such a shared type may occur in any repository function of the run set (VTA-reachable from NewTransform/Read/RawRecord/Raw/Checksum plus the reflect-called built-in custom funcs), unless the written object is a fresh allocation of that function. " +
 			"R14b: no run-set function stores to memory rooted at a package-level variable; every package-level variable of the repository that the run set reads has writers only in package initialisers (or unexported functions called only from them); objects held in package-level variables are passed only to the allow-listed synchronised operations (sync.Pool Get/Put, caches.LoadingCache.Get, sync/atomic) or read. " +
-			"R14c: on the process-wide cached *xpath.Expr only Select and String are called (Evaluate mutates the shared query).",
+			"R14c: on the process-wide cached *xpath.Expr only Select and String are called (Evaluate mutates the shared query). " +
+			"R14d: node IDs come from a single atomic read-modify-write on the counter, which is accessed only through sync/atomic; reset dominates every Pool.Put; no use after release (= C12 R12b–d). R14e: a pooled JavaScript VM is handed back only after its globals were wiped, Put is ordered last and the VM is not used afterwards (= C20 R20a).",
 		NotDecided: "races inside third-party packages beyond their documented contracts (goja, hashicorp LRU, regexp, xpath.Select cloning); equality of concurrent results with the serial run; callers sharing one transformctx.Ctx between transforms; writes through pointers obtained from shared objects by functions outside the repository.",
 		Trusted:    append([]string{"sync.Pool, sync/atomic and hashicorp golang-lru are internally synchronised", "*regexp.Regexp and *goja.Program are safe for concurrent use; xpath.Expr.Select clones the compiled query"}, commonTrusted...),
 		Run:        runC14,
@@ -172,6 +173,17 @@ func runC14(c *core.Ctx) {
 		}
 	}
 	c.Floor("R14c", 1, "QueryIter -> Expr.Select")
+
+	// ---------------- R14d node pool and ID counter under races: the ID handed out is the result of one atomic
+	// read-modify-write (not load/compute/store), reset precedes Put (= C12 R12b-d)
+	if r12 := resolveC12(c); r12 != nil {
+		c12PoolRules(c, r12, c.RepoFunctions(), c12AllowedWriters(r12), "R14d", "R14d", "R14d")
+	}
+	c.Floor("R14d", 15, "ID counter and node pool discipline")
+	// ---------------- R14e JavaScript VM pool: a VM is returned to the pool only after its globals were wiped and is not
+	// used afterwards (= C20 R20a), otherwise two goroutines share one VM
+	c20VMPool(c, "R14e")
+	c.Floor("R14e", 7, "VM pool discipline")
 }
 
 func isStructAlloc(v ssa.Value) bool {
